@@ -389,7 +389,18 @@ Section Model.
     | _ => is_some (u k)
     end.
 
-  Variable react : list (kind * C) -> kind -> C.    (* result to be saved for a kind, given what was used *)
+  (* set_use(): a batch reaction is calculated only when something besides the solution is used
+     (and a solution or a mix is used); otherwise nothing is calculated and nothing is saved *)
+  Definition reactant_use_kinds : list kind := [KPP; KRxn; KMix; KExch; KKin; KSurf; KTemp; KPres; KGas; KSS].
+  Definition reacts (u : use_req) : bool :=
+    existsb (fun k => is_some (u k)) reactant_use_kinds && (is_some (u KSol) || is_some (u KMix)).
+
+  (* result to be saved for a kind, given what was used.  The first two arguments identify the
+     calculation (tag of the simulation, cell number or -1 for a batch reaction): they stand for
+     the engine's hidden numerical state (initial guesses, cached density, ...), on which the result of
+     an otherwise identical calculation may depend in its last digits -- the theorems hold for
+     every oracle, so nothing is assumed about that dependence *)
+  Variable react : Z -> Z -> list (kind * C) -> kind -> C.
 
   Definition look_of (st : store) : kind -> Z -> option C :=
     fun k i => option_map e_body (zfind i (st k)).
@@ -420,6 +431,7 @@ Section Model.
 
   (** *** One simulation (one END-terminated block run by IPhreeqc::do_run) *)
   Record step := {
+    s_tag : Z;                                    (* identifies the simulation (see [react]) *)
     s_reads : list read_op;                       (* definitions and *_MODIFY, in input order *)
     s_react : option (use_req * save_req);        (* USE ... SAVE ... *)
     s_cells : list Z;                             (* RUN_CELLS -cells, ascending (std::set) *)
@@ -453,21 +465,29 @@ Section Model.
           end
       end.
 
-    (* saver(): entity n := result; copies n+1..n_end.  A kind that was not used is not saved. *)
+    (* saver(): entity n := result (only when the kind took part in the calculation: x*_save return
+       at once otherwise); then copies n+1..n_end of whatever entity n now is -- also for a kind that
+       was not used, in which case an already existing entity n is duplicated over the range *)
     Definition save1 (u : use_req) (res : kind -> C) (st : store) (s : kind * Z * Z) : store :=
       let k := fst (fst s) in
-      if mem_kind k savable_kinds && used_kind u k then
-        supd st k (p_copies P (zins (snd (fst s)) (mkEnt (snd (fst s)) (res k)) (st k)) (snd (fst s)) (snd s))
+      if mem_kind k savable_kinds then
+        let m1 := if used_kind u k then zins (snd (fst s)) (mkEnt (snd (fst s)) (res k)) (st k) else st k in
+        supd st k (p_copies P m1 (snd (fst s)) (snd s))
       else st.
 
-    Definition do_react (u : use_req) (sv : save_req) (st : store) : option store :=
+    (* run_reactions + saver, as used by run_as_cells (no set_use() test there) *)
+    Definition do_react_core (tag cell : Z) (u : use_req) (sv : save_req) (st : store) : option store :=
       if use_missing u (look_of st) then None        (* "Solution n not found." : run stops *)
-      else Some (fold_left (save1 u (react (used_of u (look_of st)))) sv st).
+      else Some (fold_left (save1 u (react tag cell (used_of u (look_of st)))) sv st).
 
-    Definition run_cell (st : store) (n : Z) : store :=
+    (* reactions(): USE ... SAVE ... of a simulation *)
+    Definition do_react (tag : Z) (u : use_req) (sv : save_req) (st : store) : option store :=
+      if reacts u then do_react_core tag (-1) u sv st else Some st.
+
+    Definition run_cell (tag : Z) (st : store) (n : Z) : store :=
       if n <? 0 then st
       else if negb (present st KSol n) && negb (present st KMix n) then st
-      else match do_react (cell_use st n) (cell_save st n) st with
+      else match do_react_core tag n (cell_use st n) (cell_save st n) st with
            | Some st' => st'
            | None => st
            end.
@@ -480,12 +500,12 @@ Section Model.
     Definition run_step (stp : step) (st : store) : result :=
       let st1 := fold_left do_read (s_reads stp) st in
       match (match s_react stp with
-             | Some (u, sv) => do_react u sv st1
+             | Some (u, sv) => do_react (s_tag stp) u sv st1
              | None => Some st1
              end) with
       | None => {| r_store := st1; r_dump := st1; r_stopped := true |}
       | Some st2 =>
-          let st3 := fold_left run_cell (s_cells stp) st2 in
+          let st3 := fold_left (run_cell (s_tag stp)) (s_cells stp) st2 in
           let st4 := fold_left do_mix (s_mixes stp) st3 in
           let st5 := p_copy_ents P (s_copies stp) st4 in
           let st6 := match s_delete stp with
